@@ -1,6 +1,8 @@
 import PyseqmVerif.Model.ScfControl
+import PyseqmVerif.Model.SP2Spec
 import PyseqmVerif.Proofs.ScfLemmas
 import PyseqmVerif.Proofs.RowIndep
+import PyseqmVerif.Proofs.AdaptiveMixLemmas
 /-!
 # C05b — batch transparency of the SCF control flow
 
@@ -17,23 +19,37 @@ one-molecule function (`adaptiveMix` with the oracle `othersDone`) or only the a
 
 Results.
 
-* `get_error_rowwise`: `get_error` is a row-wise map (any scalar type).
+* `get_error_rowwise`: `get_error` is a row-wise map (any scalar type); concatenation,
+  re-indexing, `List.Perm`, alone = in batch.
 * `row_independence_forward0` (any scalar type, NaN included; any kernels that act row-wise —
   hypothesis `RowWise`): the whole per-iteration record of a molecule in a batch is the record of
-  the molecule run alone; `batch_is_concat_of_alone_forward0`,
-  `batch_permutation_equivariance_forward0`.  The hypothesis cannot be dropped
-  (`row_independence_needs_rowwise`).
+  the molecule run alone (`row_independence_two_batches` for two arbitrary batches);
+  `batch_is_concat_of_alone_forward0`, `batch_permutation_equivariance_forward0`.  The hypothesis
+  cannot be dropped (`row_independence_needs_rowwise`).  The proofs rest on
+  `Proofs/RowIndep.lean`: `updMol_frozen_gen` (a converged record is a fixed point of the body,
+  without order axioms), `loop_mols_eq_runN` (the `Nnot == 0` break is invisible in the rows),
+  `traj_eq_of_sim` (simulation lemma).
+* `sp2_batch_rowwise`: `SP2`'s `while notconverged.any() and k < SP2_MAX_ITER` with its per-row
+  mask is the row-wise map of the one-molecule model `SP2Spec` — batch-coupled loop *condition*,
+  batch transparent *result*.
 * **`adaptive_mix` is NOT batch transparent** (`scf_loop.py:411-429`): the renormalisation loop
   leaves on `torch.all(done)` over the rows of the call, and a scaling round is applied to *every*
   row, done or not.  `adaptive_mix_batch_coupling_witness`: a row with
   `0 < |SUM0/SUM2 − 1| ≤ 1e-5` is returned as is when alone and rescaled by `SUM0/SUM2` when a
   batch-mate needs a round; `adaptive_mix_batch_small_trace_witness`: a row with `Σ diag ≤ 1e-3` is
-  zeroed.  `row_independence_forward1_partial` under the exact hypothesis `NotHeldBack`.
+  zeroed.  `adaptive_mix_row_independence_partial` (one call) and
+  `row_independence_forward1_partial` (the loop) under the exact hypothesis `NotHeldBack`.
 * **The Pulay loop is NOT batch transparent in its path** (`scf_loop.py:1041`,
-  `reset_diis = torch.any(cond > 1e7)`, and `1131-1144`: `counter`, `cFock`, `FOCK`, `EMAT`,
+  `reset_diis = torch.any(cond > 1e7)`, and `:1131-1144`: `counter`, `cFock`, `FOCK`, `EMAT`,
   `FPPF_packed` are reset for the whole batch): `pulay_batch_coupling_witness`;
   `row_independence_forward2_partial` under "no reset is caused by a batch-mate";
   `pulay_same_fixed_points`: the acceptance test is row-wise all the same.
+
+Scope: the `backward=False` path modelled by `ScfControl` (see its header); restricted
+`adaptive_mix` call (the unrestricted path calls it once per spin block with the same mask).
+The numerical kernels (`eigh`, `fock`, `elec_energy`, norms, the DIIS linear algebra) are
+parameters; that *they* act row-wise is the hypothesis `RowWise` / is built into the per-row
+signatures of `AdaptOps` and `PulayOps`, not a theorem.
 -/
 namespace C05b
 open ScfControl
@@ -666,5 +682,473 @@ theorem pulay_same_fixed_points (Kn : Kernels γ σ K) (eps : K) :
     simp [getErrorMol]
 
 end Acceptance
+
+/-! ## 6. `SP2`: `while notconverged.any()` with a per-row mask is row-wise -/
+section SP2Batch
+open SP2Spec
+variable {α : Type} [Add α] [Sub α] [Mul α] [Div α] [OfScientific α] [OfNat α 0]
+  [LT α] [DecidableLT α]
+
+/-- row `[m]` of the tensors of `SP2.SP2` (`a0, errm0, errm1, errm2` as `St`, `noccd[m]`) and of
+    its mask `notconverged[m]` -/
+structure Sp2Row (α : Type) where
+  st : St α
+  nocc : α
+  active : Bool
+
+/-- the body of `while notconverged.any() and k < SP2_MAX_ITER` (`SP2.py:56-89`): **every**
+    statement is indexed by `[notconverged]`; the new mask entry of an active row is
+    `~((errm0 < eps) * (errm1 < eps))` -/
+def sp2BatchBody (abs : α → α) (eps : α) (rows : List (Sp2Row α)) : List (Sp2Row α) :=
+  rows.map fun r =>
+    if r.active then
+      { r with st := iter abs r.nocc r.st, active := !stop eps (iter abs r.nocc r.st) }
+    else r
+
+/-- the batch loop; `fuel` is what is left of the batch-global cap `k < SP2_MAX_ITER` -/
+def sp2BatchLoop (abs : α → α) (eps : α) : Nat → List (Sp2Row α) → List (Sp2Row α)
+  | 0, rows => rows
+  | fuel+1, rows =>
+    if rows.any (·.active) then sp2BatchLoop abs eps fuel (sp2BatchBody abs eps rows) else rows
+
+/-- the one-molecule model `SP2Spec.loop` applied to a row -/
+def sp2RowRun (abs : α → α) (eps : α) (fuel : Nat) (r : Sp2Row α) : Sp2Row α :=
+  if r.active then
+    { r with st := (SP2Spec.loop abs eps r.nocc fuel r.st).1, active := !(SP2Spec.loop abs eps r.nocc fuel r.st).2 }
+  else r
+
+theorem sp2BatchLoop_eq_map (abs : α → α) (eps : α) :
+    ∀ (fuel : Nat) (rows : List (Sp2Row α)),
+      sp2BatchLoop abs eps fuel rows = rows.map (sp2RowRun abs eps fuel) := by
+  intro fuel
+  induction fuel with
+  | zero =>
+    intro rows
+    show rows = _
+    conv_lhs => rw [← List.map_id rows]
+    apply List.map_congr_left
+    intro r _
+    rcases r with ⟨st, nocc, act⟩
+    cases act <;> simp [sp2RowRun, SP2Spec.loop]
+  | succ fuel ih =>
+    intro rows
+    cases hany : rows.any (·.active) with
+    | true =>
+      simp only [sp2BatchLoop, hany, if_true]
+      rw [ih, sp2BatchBody, List.map_map]
+      apply List.map_congr_left
+      intro r _
+      rcases r with ⟨st, nocc, act⟩
+      cases act with
+      | false => simp [sp2RowRun]
+      | true =>
+        cases hs : stop eps (iter abs nocc st) <;> simp [sp2RowRun, SP2Spec.loop, hs]
+    | false =>
+      simp only [sp2BatchLoop, hany, Bool.false_eq_true, if_false]
+      conv_lhs => rw [← List.map_id rows]
+      apply List.map_congr_left
+      intro r hr
+      have : r.active = false := by
+        have h := List.any_eq_false.mp hany r hr
+        simpa using h
+      simp [sp2RowRun, this]
+
+/-- **`SP2` is batch transparent** although its loop condition is `notconverged.any()` and its
+    cap counts batch iterations: on a batch of `(nocc, occupations)` rows it returns, row by row,
+    exactly what the one-molecule model `SP2Spec.sp2Spectrum` returns (state, number of bodies
+    `k` of *that* row, rule-met flag) — for every cap.  Hence position, batch-mates and batch size
+    are irrelevant, and permuting the batch permutes the results. -/
+theorem sp2_batch_rowwise (abs : α → α) (eps : α) (fuel : Nat) (batch : List (α × List α)) :
+    (sp2BatchLoop abs (clampEps eps) fuel
+        (batch.map fun b => ⟨init abs b.1 b.2, b.1, true⟩)).map (fun r => (r.st, !r.active)) =
+      batch.map (fun b => sp2Spectrum abs eps b.1 fuel b.2) := by
+  rw [sp2BatchLoop_eq_map, List.map_map, List.map_map]
+  apply List.map_congr_left
+  intro b _
+  simp [sp2RowRun, sp2Spectrum]
+
+theorem sp2_batch_permutation (abs : α → α) (eps : α) (fuel : Nat) (b b' : List (α × List α))
+    (h : b.Perm b') :
+    ((sp2BatchLoop abs (clampEps eps) fuel
+        (b.map fun x => ⟨init abs x.1 x.2, x.1, true⟩)).map (fun r => (r.st, !r.active))).Perm
+      ((sp2BatchLoop abs (clampEps eps) fuel
+        (b'.map fun x => ⟨init abs x.1 x.2, x.1, true⟩)).map (fun r => (r.st, !r.active))) := by
+  rw [sp2_batch_rowwise, sp2_batch_rowwise]
+  exact h.map _
+
+end SP2Batch
+
+/-! ## witnesses and non-vacuity -/
+section Witnesses
+
+/-- `sign` on `ℚ` -/
+def sgn (x : ℚ) : ℚ := if 0 < x then 1 else if x < 0 then -1 else 0
+/-- a diagonal matrix -/
+def diagM (d : List ℚ) : Nat → Nat → ℚ := fun i j => if i = j then d.getD i 0 else 0
+/-- the diagonal and one off-diagonal entry of a 3×3 result -/
+def show3 (P : Nat → Nat → ℚ) : List ℚ := [P 0 0, P 1 1, P 2 2, P 0 1]
+
+/-- molecule A in SCF iteration 5 (`DAMP = 0.05`, not a third iteration): 2 electrons,
+    `diag P_prev = (1, ½, ½)`, `diag P_cur = (1.050002, 0.474999, 0.474999)`.  The first entry is
+    capped to `1.05`, so `SUM2 = 1.999998`, `SUM3 = SUM0/SUM2 = 1.000001…`: **done** in round 0. -/
+def rowA : MixIn ℚ :=
+  ⟨diagM [1, 1/2, 1/2], diagM [1050002/1000000, 474999/1000000, 474999/1000000], [1, 1/2, 1/2]⟩
+/-- a batch-mate: `diag P_prev = (1, 1, 0)`, `diag P_cur = (1.04, 0.04, 0.92)`; two entries are
+    capped, `SUM2 = 2.04`, `SUM3 = 0.98…`: **not done** in round 0, done in round 1. -/
+def rowMate : MixIn ℚ := ⟨diagM [1, 1, 0], diagM [104/100, 4/100, 92/100], [1, 1, 0]⟩
+/-- the molecule of `C04.adaptive_mix_small_trace_counterexample` (`Σ diag = 1/2000 ≤ 1e-3`,
+    `P_prev = P_cur`), padded to three orbitals -/
+def rowSmall : MixIn ℚ := ⟨diagM [1/2000, 0, 0], diagM [1/2000, 0, 0], [0, 0, 0]⟩
+
+/-- **`adaptive_mix` is not batch transparent** (`scf_loop.py:411-429`).  Molecule A alone: the
+    loop is left in round 0 and its capped diagonal `(1.05, 0.474999, 0.474999)` (trace
+    `1.999998`) is returned.  In a batch with `rowMate` — at either position — `torch.all(done)`
+    is `False` in round 0 because of the *mate*, the scaling round is applied to A as well and A
+    gets `(1.05, 0.474999, 0.474999) · 1000000/999999` (trace `2`): a relative change of `1e-6` of
+    the mixed density, decided by who else is in the batch.  The mate's own result is the same
+    alone and in the batch (A never holds it back). -/
+theorem adaptive_mix_batch_coupling_witness :
+    (adaptiveMixBatch (fun x : ℚ => |x|) id sgn 3 5 false [rowA]).map show3 =
+      [[21/20, 474999/1000000, 474999/1000000, 0]] ∧
+    (adaptiveMixBatch (fun x : ℚ => |x|) id sgn 3 5 false [rowA, rowMate]).map show3 =
+      [[50000/47619, 22619/47619, 22619/47619, 0], [52/51, 95/102, 5/102, 0]] ∧
+    (adaptiveMixBatch (fun x : ℚ => |x|) id sgn 3 5 false [rowMate, rowA]).map show3 =
+      [[52/51, 95/102, 5/102, 0], [50000/47619, 22619/47619, 22619/47619, 0]] ∧
+    (adaptiveMixBatch (fun x : ℚ => |x|) id sgn 3 5 false [rowMate]).map show3 =
+      [[52/51, 95/102, 5/102, 0]] ∧
+    (50000/47619 : ℚ) = 21/20 * (1000000/999999) ∧
+    -- the oracle of the model, as computed from the mate: not done in round 0
+    (List.range 3).map (othersDone (fun x : ℚ => |x|) id sgn 3 5 false
+      [(true, rowA), (true, rowMate)] 0) = [false, true, true] := by
+  refine ⟨?_, ?_, ?_, ?_, ?_, ?_⟩ <;> decide +kernel
+
+/-- the same mechanism on the molecule of `C04.adaptive_mix_small_trace_counterexample`: alone its
+    diagonal `1/2000` is returned, next to `rowMate` it is **zeroed** (`SUM3 = 0` for a row with
+    `SUM2 ≤ 1e-3`); next to a mate that is done in round 0 (`rowA`) it is untouched. -/
+theorem adaptive_mix_batch_small_trace_witness :
+    (adaptiveMixBatch (fun x : ℚ => |x|) id sgn 3 5 false [rowSmall]).map show3 =
+      [[1/2000, 0, 0, 0]] ∧
+    (adaptiveMixBatch (fun x : ℚ => |x|) id sgn 3 5 false [rowSmall, rowMate]).map show3 =
+      [[0, 0, 0, 0], [52/51, 95/102, 5/102, 0]] ∧
+    (adaptiveMixBatch (fun x : ℚ => |x|) id sgn 3 5 false [rowSmall, rowA]).map show3 =
+      [[1/2000, 0, 0, 0], [21/20, 474999/1000000, 474999/1000000, 0]] := by
+  refine ⟨?_, ?_, ?_⟩ <;> decide +kernel
+
+/-- the one-orbital instance is literally the model term of
+    `C04.adaptive_mix_small_trace_counterexample` with its oracle `fun _ => false` now *derived*
+    from a concrete batch-mate (`P_cur = 3`, clamped to `2`: not done in rounds 0 and 1; one
+    round is enough to zero the small row) -/
+theorem adaptive_mix_small_trace_oracle_realised :
+    (List.range 3).map (othersDone (fun x : ℚ => |x|) id id 1 1 false
+      [(true, ⟨fun _ _ => 1/2000, fun _ _ => 1/2000, [0]⟩), (true, ⟨fun _ _ => 3, fun _ _ => 3, [0]⟩)]
+      0) = [false, false, true] ∧
+    ((adaptiveMixBatch (fun x : ℚ => |x|) id id 1 1 false
+      [⟨fun _ _ => 1/2000, fun _ _ => 1/2000, [0]⟩, ⟨fun _ _ => 3, fun _ _ => 3, [0]⟩]).map
+        fun P => P 0 0) = [0, 1] ∧
+    ((adaptiveMixBatch (fun x : ℚ => |x|) id id 1 1 false
+      [⟨fun _ _ => 1/2000, fun _ _ => 1/2000, [0]⟩]).map fun P => P 0 0) = [1/2000] := by
+  refine ⟨?_, ?_, ?_⟩ <;> decide +kernel
+
+/-- `adaptive_mix_row_independence_partial` is not vacuous: in the batch `[rowA, rowSmall]` row A
+    is `NotHeldBack` (the mate is done in round 0 too) … -/
+example : NotHeldBack (fun x : ℚ => |x|) (occNumber false)
+    (renorm0 (fun x : ℚ => |x|) id sgn 3 5 false rowA)
+    (othersDone (fun x : ℚ => |x|) id sgn 3 5 false ([rowA, rowSmall].map fun y => (true, y)) 0) := by
+  intro r hr _ hd
+  have h : ∀ r, r < 20 → renormDone (fun x : ℚ => |x|)
+      (renormAt (occNumber false) r (renorm0 (fun x : ℚ => |x|) id sgn 3 5 false rowA)) = true →
+      othersDone (fun x : ℚ => |x|) id sgn 3 5 false
+        ([rowA, rowSmall].map fun y => (true, y)) 0 r = true := by decide +kernel
+  exact h r hr hd
+
+/-- … and in `[rowA, rowMate]` it is held back (the hypothesis fails exactly where the conclusion
+    fails) -/
+example : ¬ NotHeldBack (fun x : ℚ => |x|) (occNumber false)
+    (renorm0 (fun x : ℚ => |x|) id sgn 3 5 false rowA)
+    (othersDone (fun x : ℚ => |x|) id sgn 3 5 false ([rowA, rowMate].map fun y => (true, y)) 0) := by
+  intro h
+  have := h 0 (by decide) (fun r' hr' => absurd hr' (Nat.not_lt_zero _)) (by decide +kernel)
+  revert this
+  decide +kernel
+
+/-! ### Pulay -/
+
+/-- a one-dimensional toy "molecule": `fock(P) = P`, `make_Pnew(F) = (F + tgt)/2` (fixed point
+    `tgt`), the stored Fock history, its DIIS error, and whether its `EVEC` is ill-conditioned -/
+structure ToyRow where
+  x : ℚ
+  xold : ℚ
+  f : ℚ
+  hist : List ℚ
+  de : ℚ
+  ill : Bool
+  tgt : ℚ
+deriving DecidableEq, Repr, Inhabited
+
+/-- toy numerics with the control structure of the Pulay body: with `cFock < 2` a damped step
+    (`½P + ½Pnew`, error × ¾), with `cFock ≥ 2` a half secant step through the last two stored
+    Fock "matrices" (error × ¼); `cond = 1e8` for an `ill` molecule as soon as two are stored -/
+def toyOps : PulayOps ToyRow ℚ where
+  push := fun _ _ s => { s with hist := s.hist ++ [s.f], de := |s.f - s.tgt| / 2 }
+  cond := fun _ c s => if s.ill && decide (2 ≤ c) then 100000000 else 1
+  extrap := fun _ _ s =>
+    match s.hist.reverse with
+    | h2 :: h1 :: _ =>
+      let r1 := (s.tgt - h1) / 2
+      let r2 := (s.tgt - h2) / 2
+      let sec := if r1 = r2 then h2 else (h1 * r2 - h2 * r1) / (r2 - r1)
+      { s with f := h2 + (sec - h2) / 2 }
+    | _ => s
+  advance := fun damped s =>
+    let xnew := (s.f + s.tgt) / 2
+    let x' := if damped then s.x / 2 + xnew / 2 else xnew
+    { s with x := x', xold := s.x, f := x' }
+  clear := fun s => { s with hist := [] }
+
+def toyPulay : Kernels DiisG ToyRow ℚ :=
+  pulayKernels toyOps (fun s => (s.x - s.tgt) * (s.x - s.tgt)) (fun s => |s.x - s.xold|)
+    (fun s => |s.x - s.xold|) (fun s => some s.de)
+
+/-- molecule A: well-conditioned, fixed point `1` -/
+def molA : ToyRow := ⟨0, 0, 0, [], 0, false, 1⟩
+/-- its batch-mate: ill-conditioned `EVEC`, fixed point `100` -/
+def molIll : ToyRow := ⟨0, 0, 0, [], 0, true, 100⟩
+
+/-- what we look at: global DIIS scalars, and per molecule `(P, notconverged, last write)` -/
+def view (st : State DiisG ToyRow ℚ) : DiisG × List (ℚ × Bool × Nat) :=
+  (st.g, st.mols.map fun m => (m.s.x, m.active, m.lastIt))
+
+/-- **The Pulay loop is not batch transparent in its path** (`scf_loop.py:1041`
+    `reset_diis = torch.any(cond > 1e7)`, `:1131-1144` reset of `counter, cFock, FOCK, EMAT,
+    FPPF_packed` for the whole batch).  Molecule A, threshold `1e-3`:
+    * alone: `cFock` runs `1, 2, 3, …`, from the second body on every step is a DIIS step;
+      iterates `¼, 13/16, 61/64, …`; accepted in body 6 with `P = 16381/16384`;
+    * next to `molIll`: after the second body the *mate's* condition number resets the global
+      `counter/cFock` (A's own `cond` is `1`), body 2 is a damped step again: iterates
+      `¼, 13/16, 55/64, …`; accepted (same test) in body 6 with `P = 16303/16384`, further from the
+      fixed point than the threshold;
+    * the same at the other batch position. -/
+theorem pulay_batch_coupling_witness :
+    -- the first two bodies agree …
+    (view (runN toyPulay (fun x => |x|) (1/1000) 0 2 (initState toyPulay DiisG.init [molA])) =
+      (⟨1, 2⟩, [(13/16, true, 1)])) ∧
+    -- … but the global DIIS state has been reset by the mate
+    (view (runN toyPulay (fun x => |x|) (1/1000) 0 2
+        (initState toyPulay DiisG.init [molA, molIll])) =
+      (⟨-1, 0⟩, [(13/16, true, 1), (325/4, true, 1)])) ∧
+    -- third body: DIIS step alone, damped step in the batch (A active in both)
+    (view (runN toyPulay (fun x => |x|) (1/1000) 0 3 (initState toyPulay DiisG.init [molA])) =
+      (⟨2, 3⟩, [(61/64, true, 2)])) ∧
+    (view (runN toyPulay (fun x => |x|) (1/1000) 0 3
+        (initState toyPulay DiisG.init [molA, molIll])) =
+      (⟨0, 1⟩, [(55/64, true, 2), (1375/16, true, 2)])) ∧
+    -- what `scf_forward2` returns: both runs report A converged, with different densities
+    (view (scfForward2 toyPulay (fun x => |x|) (1/1000) DiisG.init [molA])).2 =
+      [(16381/16384, false, 6)] ∧
+    (view (scfForward2 toyPulay (fun x => |x|) (1/1000) DiisG.init [molA, molIll])).2 =
+      [(16303/16384, false, 6), (1677666925/16777216, false, 12)] ∧
+    (view (scfForward2 toyPulay (fun x => |x|) (1/1000) DiisG.init [molIll, molA])).2 =
+      [(1677666925/16777216, false, 12), (16303/16384, false, 6)] ∧
+    (1/1000 : ℚ) < |16303/16384 - 16381/16384| := by
+  refine ⟨?_, ?_, ?_, ?_, ?_, ?_, ?_, ?_⟩ <;> decide +kernel
+
+end Witnesses
+
+/-! ### non-vacuity of the loop-level theorems -/
+section NonVacuity
+
+/-- a row-wise toy kernel (that of `C03.toyK`): `s = (P, Pold)`, the step halves `P` -/
+def halfK : Kernels Unit (ℚ × ℚ) ℚ where
+  step := fun _ g ms => (g, fun i => match ms[i]? with
+    | some m => (m.s.1 / 2, m.s.1)
+    | none => (0, 0))
+  energy := fun s => s.1
+  dmErr := fun s => |s.1 - s.2|
+  elemErr := fun s => |s.1 - s.2|
+  diisErr := fun _ => none
+
+/-- `RowWise` is satisfiable by a kernel that does something -/
+theorem halfK_rowWise : RowWise halfK := by
+  apply rowWise_of_pointwise halfK (fun _ m => (m.s.1 / 2, m.s.1))
+  intro k g ms i m hi _
+  show (match ms[i]? with | some m => _ | none => _) = _
+  rw [hi]
+
+/-- … and the theorem says something about it: molecule `(1,1)` needs 7 bodies alone and sits in
+    a batch that runs 10 bodies; its returned record is the same (here evaluated). -/
+example :
+    (scfForward0 halfK (fun x => |x|) (1/100) () [(0, 0), (1, 1), (9, 9)]).iters = 10 ∧
+    (scfForward0 halfK (fun x => |x|) (1/100) () [(1, 1)]).iters = 7 ∧
+    ((scfForward0 halfK (fun x => |x|) (1/100) () [(0, 0), (1, 1), (9, 9)]).mols[1]?).map
+        (fun m => ([m.s.1, m.s.2, m.eOld, m.eNew, m.err, m.dm, m.elem], m.active, m.lastIt)) =
+      some (([1/128, 1/64, 1/64, 1/128, -1/128, 1/128, 1/128] : List ℚ), false, 6) := by
+  refine ⟨?_, ?_, ?_⟩ <;> decide +kernel
+
+example : (scfForward0 halfK (fun x => |x|) (1/100) () [(0, 0), (1, 1), (9, 9)]).mols[1]? =
+    (scfForward0 halfK (fun x => |x|) (1/100) () [(1, 1)]).mols[0]? :=
+  (row_independence_forward0 halfK halfK_rowWise _ _ () () _ 1 (1, 1) rfl).2.2.1
+
+/-- a kernel that is **not** row-wise: it adds a tenth of the *first* row's density -/
+def leakK : Kernels Unit (ℚ × ℚ) ℚ where
+  step := fun _ g ms => (g, fun i => match ms[i]?, ms[0]? with
+    | some m, some m0 => (m.s.1 / 2 + m0.s.1 / 10, m.s.1)
+    | _, _ => (0, 0))
+  energy := fun s => s.1
+  dmErr := fun s => |s.1 - s.2|
+  elemErr := fun s => |s.1 - s.2|
+  diisErr := fun _ => none
+
+/-- **The hypothesis `RowWise` cannot be dropped**: for `leakK` the record of a molecule depends
+    on its batch-mates already after the first body. -/
+theorem row_independence_needs_rowwise :
+    ¬ RowWise leakK ∧
+    ((runN leakK (fun x => |x|) (1/100) 0 1 (initState leakK () [(5, 5), (1, 1)])).mols[1]?).map
+        (fun m => m.s) ≠
+      ((runN leakK (fun x => |x|) (1/100) 0 1 (initState leakK () [(1, 1)])).mols[0]?).map
+        (fun m => m.s) := by
+  constructor
+  · intro h
+    have := h 0 () () (initState leakK () [(5, 5), (1, 1)]).mols (initState leakK () [(1, 1)]).mols
+      1 0 _ rfl rfl rfl
+    revert this
+    decide +kernel
+  · decide +kernel
+
+variable {K : Type} [Field K] [LinearOrder K] [IsStrictOrderedRing K]
+
+/-- a row with `P_prev = P_cur` and admissible diagonal is `done` in round 0 of every iteration -/
+theorem renormDone_of_fixed (sqrt sign : K → K) (n it : Nat) (unres : Bool) (x : MixIn K)
+    (hx : x.Pprev = x.Pcur)
+    (hdiag : ∀ d ∈ diagOf n x.Pcur, 0 ≤ d ∧ d ≤ (occNumber unres : K)) :
+    renormDone (fun y : K => |y|) (renorm0 (fun y : K => |y|) sqrt sign n it unres x) = true := by
+  unfold renorm0
+  rw [hx, mixDiag0_self sign _ _ _ _ (damp_pos it) hdiag]
+  exact renormDone_self _
+
+theorem othersDone_of_all_done (abs sqrt sign : K → K) (n it : Nat) (unres : Bool)
+    (rows : List (Bool × MixIn K)) (i r : Nat)
+    (h : ∀ x ∈ rows, renormDone abs
+      (renormAt (occNumber unres) r (renorm0 abs sqrt sign n it unres x.2)) = true) :
+    othersDone abs sqrt sign n it unres rows i r = true := by
+  unfold othersDone
+  rw [List.all_eq_true]
+  intro xj hxj
+  simp [h xj.1 (List.fst_mem_of_mem_zipIdx hxj)]
+
+/-- closed-shell two-orbital density `diag(2, 0)` at self-consistency (`P_cur = P_prev`) -/
+def fixedRow : MixIn ℚ :=
+  ⟨fun i j => if i = 0 ∧ j = 0 then 2 else 0, fun i j => if i = 0 ∧ j = 0 then 2 else 0, [2, 0]⟩
+
+/-- toy `scf_forward1` operations: the state is a counter of commits, the density handed to
+    `adaptive_mix` is `fixedRow` -/
+def fixedOps : AdaptOps Nat ℚ where
+  nbas := 2
+  unres := false
+  input := fun _ => fixedRow
+  commit := fun s _ => s + 1
+
+/-- **`row_independence_forward1_partial` is not vacuous**: its hypothesis holds in every
+    iteration for every batch of molecules at self-consistency (everybody is `done` in round 0,
+    nobody holds anybody back) — the situation of a restart from converged densities. -/
+example (ss : List Nat) (i k0 : Nat) (energy dmErr elemErr : Nat → ℚ) (eps : ℚ) : ∀ n m,
+    (runN (adaptKernels fixedOps (fun x : ℚ => |x|) id sgn energy dmErr elemErr)
+      (fun x : ℚ => |x|) eps k0 n
+      (initState (adaptKernels fixedOps (fun x : ℚ => |x|) id sgn energy dmErr elemErr) ()
+        ss)).mols[i]? = some m →
+    m.active = true →
+    NotHeldBack (fun x : ℚ => |x|) (occNumber fixedOps.unres)
+      (renorm0 (fun x : ℚ => |x|) id sgn fixedOps.nbas (k0 + n) fixedOps.unres
+        (fixedOps.input m.s))
+      (othersDone (fun x : ℚ => |x|) id sgn fixedOps.nbas (k0 + n) fixedOps.unres
+        (mixRows fixedOps
+          (runN (adaptKernels fixedOps (fun x : ℚ => |x|) id sgn energy dmErr elemErr)
+            (fun x : ℚ => |x|) eps k0 n
+            (initState (adaptKernels fixedOps (fun x : ℚ => |x|) id sgn energy dmErr elemErr) ()
+              ss)).mols) i) := by
+  intro n m _ _ r _ hbefore _
+  have hdone : ∀ it, renormDone (fun y : ℚ => |y|)
+      (renorm0 (fun y : ℚ => |y|) id sgn 2 it false fixedRow) = true := by
+    intro it
+    apply renormDone_of_fixed id sgn 2 it false fixedRow rfl
+    intro d hd
+    obtain ⟨j, hj, rfl⟩ := mem_diagOf 2 _ d hd
+    rw [occNumber_eq]
+    have hj' : j = 0 ∨ j = 1 := by omega
+    rcases hj' with rfl | rfl <;> simp [fixedRow]
+  cases r with
+  | zero =>
+    apply othersDone_of_all_done
+    intro x hx
+    simp only [mixRows, List.mem_map] at hx
+    obtain ⟨m', -, rfl⟩ := hx
+    exact hdone _
+  | succ r =>
+    have := hbefore 0 (Nat.succ_pos _)
+    rw [show renormAt (occNumber fixedOps.unres) 0
+      (renorm0 (fun x : ℚ => |x|) id sgn fixedOps.nbas (k0 + n) fixedOps.unres
+        (fixedOps.input m.s)) = renorm0 (fun y : ℚ => |y|) id sgn 2 (k0 + n) false fixedRow from rfl,
+      hdone] at this
+    cases this
+
+/-- the toy Pulay numerics with a well-conditioned `EVEC` for everybody -/
+def toyOpsWell : PulayOps ToyRow ℚ := { toyOps with cond := fun _ _ _ => 1 }
+
+/-- **`row_independence_forward2_partial` is not vacuous**: with condition numbers below `1e7`
+    no reset ever fires, the hypothesis holds for every batch, position and iteration (and the
+    DIIS extrapolation *is* active from the second body on). -/
+example (energy dmErr elemErr : ToyRow → ℚ) (diisErr : ToyRow → Option ℚ) (eps : ℚ) (k0 : Nat)
+    (g0 : DiisG) (ss : List ToyRow) (i : Nat) : ∀ n m,
+    (runN (pulayKernels toyOpsWell energy dmErr elemErr diisErr) (fun x : ℚ => |x|) eps k0 n
+      (initState (pulayKernels toyOpsWell energy dmErr elemErr diisErr) g0 ss)).mols[i]? = some m →
+    m.active = true →
+    resetFlag toyOpsWell
+      (runN (pulayKernels toyOpsWell energy dmErr elemErr diisErr) (fun x : ℚ => |x|) eps k0 n
+        (initState (pulayKernels toyOpsWell energy dmErr elemErr diisErr) g0 ss)).g
+      (runN (pulayKernels toyOpsWell energy dmErr elemErr diisErr) (fun x : ℚ => |x|) eps k0 n
+        (initState (pulayKernels toyOpsWell energy dmErr elemErr diisErr) g0 ss)).mols =
+    resetFlag toyOpsWell
+      (runN (pulayKernels toyOpsWell energy dmErr elemErr diisErr) (fun x : ℚ => |x|) eps k0 n
+        (initState (pulayKernels toyOpsWell energy dmErr elemErr diisErr) g0 ss)).g [m] := by
+  intro n m _ _
+  have h : ∀ g (ms : List (Mol ToyRow ℚ)), resetFlag toyOpsWell g ms = false := by
+    intro g ms
+    have h1 : ¬ ((1.0e7 : ℚ) < 1) := by norm_num
+    simp [resetFlag, toyOpsWell, h1]
+  rw [h, h]
+
+/-- and its conclusion, evaluated: with well-conditioned mates molecule A returns what it returns
+    alone -/
+example :
+    ((scfForward2 (pulayKernels toyOpsWell (fun s => (s.x - s.tgt) * (s.x - s.tgt))
+        (fun s => |s.x - s.xold|) (fun s => |s.x - s.xold|) (fun s => some s.de))
+        (fun x => |x|) (1/1000) DiisG.init [molIll, molA]).mols.map
+          fun m => (m.s.x, m.active, m.lastIt)) =
+      [(26214325/262144, false, 9), (16381/16384, false, 6)] := by
+  decide +kernel
+
+/-- `pulay_same_fixed_points` on the witness: both returned states of molecule A pass the same
+    four-part test (`flag_truthful`), although one was reached through resets -/
+example :
+    Passed (1/1000 : ℚ) ((16381/16384 - 1) * (16381/16384 - 1) - (4093/4096 - 1) * (4093/4096 - 1))
+      |16381/16384 - 4093/4096| |16381/16384 - 4093/4096| (some (|4093/4096 - 1| / 2)) := by
+  refine ⟨?_, ?_, ?_, ?_⟩
+  · norm_num [abs_le]
+  · norm_num [abs_le]
+  · norm_num [abs_le]
+  · intro d hd
+    cases hd
+    norm_num [abs_le]
+
+/-- `sp2_batch_rowwise`, evaluated: a non-degenerate spectrum (rule met after 6 bodies) next to a
+    degenerate HOMO/LUMO pair that runs into the cap of 12 bodies: the first row stops being
+    updated after its own 6 bodies, although the batch loop goes on -/
+example : (sp2BatchLoop (fun x : ℚ => |x|) (SP2Spec.clampEps (1/1000)) 12
+      ([((1:ℚ), [1, 7/10, 0]), (1, [1/2, 1/2])].map fun b =>
+        ⟨SP2Spec.init (fun x : ℚ => |x|) b.1 b.2, b.1, true⟩)).map (fun r => (r.st.k, r.active)) =
+      [(6, false), (12, true)] ∧
+    (SP2Spec.sp2Spectrum (fun x : ℚ => |x|) (1/1000) 1 12 [1, 7/10, 0]).1.k = 6 := by
+  constructor <;> decide +kernel
+
+end NonVacuity
 
 end C05b
